@@ -2416,6 +2416,11 @@ impl Evaluator {
         if galois_elt & 1 == 0 || galois_elt > m {
             panic!("[Invalid argument] Galois element not valid");
         }
+        // A coefficient-form BFV/BGV plaintext may store fewer than N coefficients
+        // (e.g. after decryption); its image under the automorphism has N.
+        if !plain.is_ntt_form() && !context_data.is_ckks() && plain.coeff_count() < coeff_count {
+            plain.resize(coeff_count);
+        }
         let mut temp = vec![0; plain.data().len()];
         
         // DO NOT CHANGE EXECUTION ORDER OF FOLLOWING SECTION
